@@ -21,7 +21,16 @@ coq/theories/Gen/SafePathData.v:
   temp directory is in use and into the workspace otherwise, `submit` gets the
   workspace as cwd, and every path is built with `os.path.join(dir, name)`.
 
-Fail-closed: any shape that is not understood raises NotTranslatable.
+Two kinds of checks.  DATA (alphabet, replace rules, templates, workspace
+shapes, separator): extracted with a tolerant symbolic evaluator (str.format,
+f-strings, `+`, `%s`, local single-assignment variables; make_safe_path falls
+back to evaluating the isolated function definition -- never the package -- on
+every code point when its loop has been rewritten); when the data cannot be
+determined the generator fails closed (NotTranslatable).  STRUCTURE the
+hand-written model hard-wires (property getters, guards, which `open` calls
+exist, ...): advisory only -- recorded in NOTES / _work/tdata_misc_notes.json,
+because the correspondence run is what validates the hand-written part and a
+behaviour-preserving rewrite must not break the tie.
 """
 import ast
 import os
@@ -39,6 +48,16 @@ ADAPTERS = (
     ("AFlux", "maestrowf/interfaces/script/fluxscriptadapter.py", "FluxScriptAdapter"),
 )
 OUT = "Gen/SafePathData.v"
+NOTES = []      # advisory findings of the last generate()
+
+
+def _soft(fn, *args):
+    """Run a structural (non-data) check; a failure is a note, not an error."""
+    try:
+        return fn(*args)
+    except NotTranslatable as e:
+        NOTES.append(str(e))
+        return None
 
 
 def _fail(msg, node=None):
